@@ -20,6 +20,9 @@ class Prop(c09.Prop):
             'are compared; a per-case watchdog turns non-termination into a violation; non-trivial always; '
             'distinct = distinct descriptors')
     ASSUMPTIONS = [
+        'a reader accepts a file when its constructor returns; the dimensions both readers expose are compared '
+        'at that point, the variables both define afterwards (a record reader whose variables cannot be read '
+        'is then counted as not accepting, unless its dimensions already disagreed)',
         'only what both readers define is compared (the record readers define no TFLAG variable); float data '
         'are compared bit for bit up to length-1 axes',
         'horizon 5 s per case (a normal case takes < 50 ms)',
@@ -60,16 +63,24 @@ class Prop(c09.Prop):
             return result('not-accepted-memmap', [], st, 1, None, h64(type(e).__name__))
         try:
             fr = cl.open_rd(fmt, p, r)
-            rd = {k: np.asarray(fr.variables[k][...]) for k in fr.variables.keys()}
             rdim = {k: len(v) for k, v in fr.dimensions.items()}
         except core.Timeout:
             raise
         except Exception as e:
             return result('not-accepted-record', [], st, 2, None, h64(type(e).__name__))
+        # both constructors accepted the file: the dimensions they expose are compared at once
         for k in sorted(set(md) & set(rdim)):
             if md[k] != rdim[k]:
                 vs.append(viol('dimension-length', sig, '%s: memmap %d, record reader %d' % (k, md[k], rdim[k]),
                                dim=k, **scope))
+        try:
+            rd = {k: np.asarray(fr.variables[k][...]) for k in fr.variables.keys()}
+        except core.Timeout:
+            raise
+        except Exception as e:
+            if vs:
+                return result('viol', vs, st, 2)
+            return result('not-accepted-record', [], st, 2, None, h64(type(e).__name__))
         common = [k for k in mm if k in rd]
         if not common:
             vs.append(viol('no-common-variables', sig, '%r vs %r' % (list(mm), list(rd)), **scope))
@@ -83,5 +94,34 @@ class Prop(c09.Prop):
             if not cl.squeeze_equal(a, b):
                 vs.append(viol('data', sig, '%s: memmap %r %s vs record %r %s' % (
                     k, a.shape, a.ravel()[:4], b.shape, b.ravel()[:4]), var=k, **scope))
-        return result('viol' if vs else 'ok', vs, st, 2, h64('c13', sorted(d.items(), key=str)),
+        # the same path rewritten with another valid file and opened again: both readers must show the NEW file
+        if not vs:
+            d2 = dict(d, nsteps=d['nsteps'] % 3 + 2)
+            r2 = camx_u.materialize(d2)
+            scope2 = c09.scope_of(d2, r2)
+            scope2['name'] = scope['name']
+            with open(p, 'wb') as fh:
+                fh.write(camx_u.encode(r2))
+            try:
+                fm2 = cl.open_mm(fmt, p, r2)
+                fr2 = cl.open_rd(fmt, p, r2)
+                for k in ('TSTEP', 'LAY'):
+                    if k in fm2.dimensions and k in fr2.dimensions and \
+                            len(fm2.dimensions[k]) != len(fr2.dimensions[k]):
+                        vs.append(viol('dimension-length-after-rewrite', sig, '%s: memmap %d, record reader %d after '
+                                       'the path was rewritten' % (k, len(fm2.dimensions[k]), len(fr2.dimensions[k])),
+                                       dim=k, **scope2))
+                m2 = {k: np.asarray(fm2.variables[k][...]) for k in fm2.variables.keys()}
+                r2v = {k: np.asarray(fr2.variables[k][...]) for k in fr2.variables.keys()}
+                for k in [k for k in m2 if k in r2v and 'FLAG' not in k]:
+                    if not cl.squeeze_equal(m2[k], r2v[k]):
+                        vs.append(viol('data-after-rewrite', sig, '%s after the path was rewritten (%d -> %d steps): '
+                                       'memmap %r vs record %r' % (k, d['nsteps'], d2['nsteps'], m2[k].shape,
+                                                                   r2v[k].shape), var=k, **scope2))
+                        break
+            except core.Timeout:
+                raise
+            except Exception:
+                pass      # the rewritten file is not accepted by one of the readers: nothing to compare
+        return result('viol' if vs else 'ok', vs, st, 4, h64('c13', sorted(d.items(), key=str)),
                       h64(raw) if not vs else None)
